@@ -1390,6 +1390,10 @@ class Engine:
             raise Unsupported(f"method {name} on a symbolic string")
         if is_sym(recv) and z3.is_int(recv) and name == "bit_length":
             raise Unsupported("bit_length")
+        if isinstance(recv, SeqV) and recv.kind in ("frozenset", "tuple") and not hasattr({"frozenset": frozenset, "tuple": tuple}[recv.kind], name):
+            # a symbolic collection that stands for an immutable built-in: it has the methods of that type and no others
+            self.raise_(ExcVal("AttributeError", (f"'{recv.kind}' object has no attribute '{name}'",)), s)
+            return []
         raise Unsupported(f"method {name} of {recv!r}")
 
     def dict_method(self, recv, name, args, s):
